@@ -235,6 +235,20 @@ def is_cmp_const(cond, fname, const):
     return False, neg
 
 
+def clean_input_ok(fn):
+    """X_clean_input: NB_UREFS reset to 0 before unblock_input (which releases the blockers only when few urefs are
+    held), nothing else stored into it in between, every held uref freed"""
+    ev = pr.Events(fn)
+    zero = pr.m_store('NB_UREFS', 0)
+    unb = pr.m_call(r'\w+_unblock_input')
+    ok = bool(ev.find(unb)) and not pr.must_precede(ev, zero, unb)
+    between = pr.never_after(ev, zero, pr.m_store('NB_UREFS'), reset=unb)
+    ok = ok and not [b for b in between if not zero(b[1][2])]
+    dele = pr.m_call('ulist_delete')
+    ok = ok and bool(ev.find(dele)) and not pr.must_follow(ev, dele, pr.m_any(pr.m_call('uref_free'), dele)) and bool(ev.find(pr.m_call('uref_free')))
+    return ok
+
+
 def check_core(rep, prog):
     rep.rule('R-core', 'ordering obligations on the primitives the property names, each a path rule on one function (see instance names)')
     H = prog.hdr
@@ -363,16 +377,7 @@ def check_core(rep, prog):
                 core(rep, '%s:releases-requests-output-flowdef' % fn.name, ok, fn.loc,
                      **({} if ok else {'what': 'clean_output must free every popped request, release the output and free the flow definition on every path'}))
             elif fn.macro == 'UPIPE_HELPER_INPUT' and fn.name.endswith('_clean_input'):
-                ev = pr.Events(fn)
-                zero = pr.m_store('NB_UREFS', 0)
-                unb = pr.m_call(r'\w+_unblock_input')
-                ok = bool(ev.find(unb)) and not pr.must_precede(ev, zero, unb)
-                ok = ok and not pr.never_after(ev, zero, unb, reset=None) == [] if False else ok
-                # no other store to NB_UREFS between the reset and the unblock
-                between = pr.never_after(ev, zero, pr.m_store('NB_UREFS'), reset=unb)
-                ok = ok and not [b for b in between if not zero(b[1][2])]
-                dele = pr.m_call('ulist_delete')
-                ok = ok and bool(ev.find(dele)) and not pr.must_follow(ev, dele, pr.m_any(pr.m_call('uref_free'), dele)) and bool(ev.find(pr.m_call('uref_free')))
+                ok = clean_input_ok(fn)
                 core(rep, '%s:frees-held-and-unblocks' % fn.name, ok, fn.loc,
                      **({} if ok else {'what': 'clean_input must reset NB_UREFS to 0 before calling unblock_input (else the blockers survive the pipe) and free every held uref'}))
             elif fn.macro == 'UPIPE_HELPER_SUBPIPE' and '_throw_sub_' in fn.name:
